@@ -405,8 +405,20 @@ impl Engine for ConcEngine {
                 report.fail(f.rule, format!("at quiescence: {}", f.detail));
             }
             let overhead = FeoxStore::verif_record_overhead();
-            let keys = store.verif_hash_keys();
-            let want: usize = keys.iter().map(|k| overhead + k.key.len() + k.value_len).sum();
+            // the sweeper removes a key and adjusts the counters in two steps with a preemption
+            // point in between: quiescence means it is asleep between two passes
+            let mut keys = store.verif_hash_keys();
+            let mut want: usize = keys.iter().map(|k| overhead + k.key.len() + k.value_len).sum();
+            if let Some(sw) = &sc.store.sweeper {
+                for _ in 0..6 {
+                    if store.memory_usage() == want && store.len() == keys.len() {
+                        break;
+                    }
+                    sim.sleep(Duration::from_millis(sw.interval_ms * 3 + 1));
+                    keys = store.verif_hash_keys();
+                    want = keys.iter().map(|k| overhead + k.key.len() + k.value_len).sum();
+                }
+            }
             if store.memory_usage() != want {
                 report.fail(
                     "memory-accounting",
@@ -564,6 +576,9 @@ fn client_loop(
             _ => {}
         }
         sim.hash_u64(mix(invoke, ret));
+        if std::env::var("SIMCHECK_DEBUG").is_ok() {
+            eprintln!("client {client} op #{i} ev {invoke}..{ret} wall {wall0}..{wall1}: {} -> {} | mem={} len={} key={:?}", call.brief(), res.brief(), store.memory_usage(), store.len(), call.key().and_then(|k| store.verif_key(k)).map(|k| (k.timestamp, k.expiry, k.value_len)));
+        }
         history.lock().unwrap().push(Rec { client, idx: i, call, invoke, ret, wall0, wall1, res });
     }
 }
